@@ -2,16 +2,16 @@
 package c32
 
 import (
-	"google.golang.org/grpc/metadata"
-	"sync"
 	"context"
 	"fmt"
+	"google.golang.org/grpc/metadata"
 	"sort"
 	"strings"
+	"sync"
 	"sync/atomic"
+	"time"
 
 	authzenv1 "github.com/openfga/api/proto/authzen/v1"
-	openfgav1 "github.com/openfga/api/proto/openfga/v1"
 	"google.golang.org/protobuf/types/known/structpb"
 
 	"github.com/openfga/openfga/internal/verifh/c04/kit"
@@ -21,22 +21,16 @@ import (
 	"github.com/openfga/openfga/pkg/server"
 )
 
-// Q is a native decision request; Props adds AuthZEN properties x=<v> on subject, resource and action
-// (they must reach the native context under the names subject_x / resource_x / action_x, never as x).
+// Q is a native decision request of the first two passes (no properties; requests with properties: props.go).
 type Q struct {
 	Subject string `json:"subject"` // "type:id"
 	Obj     string `json:"obj"`
 	Rel     string `json:"rel"`
 	Ctx     *int   `json:"reqctx,omitempty"`
-	Props   *int   `json:"props,omitempty"`
 }
 
 func (q Q) String() string {
-	s := fmt.Sprintf("%s#%s@%s ctx=%s", q.Obj, q.Rel, q.Subject, e2.CtxStr(q.Ctx))
-	if q.Props != nil {
-		s += fmt.Sprintf(" props.x=%d", *q.Props)
-	}
-	return s
+	return fmt.Sprintf("%s#%s@%s ctx=%s", q.Obj, q.Rel, q.Subject, e2.CtxStr(q.Ctx))
 }
 
 func split(o string) (string, string) { i := strings.IndexByte(o, ':'); return o[:i], o[i+1:] }
@@ -59,25 +53,6 @@ func res(o string, p *int) *authzenv1.Resource {
 }
 func act(r string, p *int) *authzenv1.Action { return &authzenv1.Action{Name: r, Properties: props(p)} }
 
-// nativeContext is the harness' own statement of the mapping: request context keys stay, properties
-// are prefixed with their source.
-func nativeContext(q Q) *structpb.Struct {
-	m := map[string]any{}
-	if q.Props != nil {
-		m["subject_x"] = *q.Props
-		m["resource_x"] = *q.Props
-		m["action_x"] = *q.Props
-	}
-	if q.Ctx != nil {
-		m["x"] = *q.Ctx
-	}
-	if len(m) == 0 {
-		return nil
-	}
-	s, _ := structpb.NewStruct(m)
-	return s
-}
-
 type world struct {
 	env  *e2.Env
 	memo map[string]string
@@ -99,7 +74,7 @@ func (w *world) native(q Q) string {
 	if v, ok := w.memo[k]; ok {
 		return v
 	}
-	out := w.env.Check(q.Obj, q.Rel, q.Subject, nil, nil, func(r *openfgav1.CheckRequest) { r.Context = nativeContext(q) })
+	out := w.env.Check(q.Obj, q.Rel, q.Subject, q.Ctx, nil)
 	w.memo[k] = out.V
 	return out.V
 }
@@ -118,7 +93,7 @@ func evalClass(r *authzenv1.EvaluationResponse) string {
 
 func (w *world) evaluation(q Q) string {
 	resp, err := w.env.S.Evaluation(w.ctx(), &authzenv1.EvaluationRequest{StoreId: w.env.StoreID,
-		Subject: subj(q.Subject, q.Props), Resource: res(q.Obj, q.Props), Action: act(q.Rel, q.Props), Context: e2.ReqCtx(q.Ctx)})
+		Subject: subj(q.Subject, nil), Resource: res(q.Obj, nil), Action: act(q.Rel, nil), Context: e2.ReqCtx(q.Ctx)})
 	if err != nil {
 		return "ERR"
 	}
@@ -263,6 +238,9 @@ type Case struct {
 	Q        *Q         `json:"request,omitempty"`
 	Evals    *Evals     `json:"evaluations,omitempty"`
 	Search   []string   `json:"search,omitempty"` // object/subject, relation, type, ctx
+	PQ       *PQ        `json:"request_with_properties,omitempty"`
+	PEvals   *PEvals    `json:"evaluations_with_properties,omitempty"`
+	V        *PV        `json:"search_carries,omitempty"`
 	Native   string     `json:"native"`
 	AuthZen  string     `json:"authzen"`
 	Seen     string     `json:"seen"`
@@ -314,12 +292,21 @@ func check(r *core.Report, w *ref.World, endpoint string, want string, got strin
 		what = c.Q.String()
 	case c.Evals != nil:
 		what = fmt.Sprintf("%s/%s top=%+v items=%d", c.Evals.Variant, c.Evals.Semantic, c.Evals.Top, len(c.Evals.Items))
+	case c.PQ != nil:
+		what = c.PQ.String()
+	case c.PEvals != nil:
+		what = fmt.Sprintf("%s/%s top=%s items=%d", c.PEvals.Variant, c.PEvals.Semantic, spp(c.PEvals.Top), len(c.PEvals.Items))
+	case c.V != nil:
+		what = strings.Join(c.Search, " ") + " " + c.V.String()
 	default:
 		what = strings.Join(c.Search, " ")
 	}
 	sig := "authzen/" + endpoint + ": " + diffClass(want, got)
 	if c.Evals != nil {
 		sig = "authzen/" + endpoint + "/" + c.Evals.Variant + "/" + strings.TrimSpace(c.Evals.Semantic+" ") + ": lists differ"
+	}
+	if c.PEvals != nil {
+		sig = "authzen/" + endpoint + "/" + c.PEvals.Variant + "/" + strings.TrimSpace(c.PEvals.Semantic+" ") + ": lists differ"
 	}
 	if w.Tag != "" {
 		sig += " [" + w.Tag + "]"
@@ -364,15 +351,6 @@ func one(r *core.Report, o *core.Options, env *e2.Env, w *ref.World, nodes []e2.
 			return g
 		}
 		check(r, w, "Evaluations", want, noItems(), func() (string, string) { return fresh(q), noItems() }, Case{Evals: &e}, nt...)
-		if len(ctxs) > 1 {
-			// properties carry x: they must arrive as subject_x/resource_x/action_x, not as x
-			for _, pv := range []*int{&e2.One, &e2.Twenty} {
-				qp := q
-				qp.Props = pv
-				wantp := ww.native(qp)
-				check(r, w, "Evaluation+properties", wantp, ww.evaluation(qp), func() (string, string) { return fresh(qp), ww.evaluation(qp) }, Case{Q: &qp}, qp.String())
-			}
-		}
 	}
 	// ---- batched ----
 	full := func(q Q) Part { return Part{q.Subject, q.Obj, q.Rel, q.Ctx} }
@@ -596,6 +574,10 @@ func Run(o *core.Options) int {
 		w.Tag = pinnedTag
 		one(r, o, env, w, nodes, true)
 	})
+	// third pass: properties and request-level context against conditions that read the mapped names
+	t3 := time.Now()
+	propsSweep(r, models, nodes)
+	r.Set("props_pass_wall_s", time.Since(t3).Seconds())
 	return r.Finish()
 }
 
@@ -604,6 +586,23 @@ func replay(o *core.Options, r *core.Report) int {
 	if err := core.LoadReplay(o.Replay, &c); err != nil {
 		fmt.Println("replay:", err)
 		return 2
+	}
+	if c.World.U == nil {
+		c.World.U = ref.DefaultUniverse()
+	}
+	if p := tagParam(c.World.Tag); p != "" {
+		env, err := newParamEnv(c.World.M, p)
+		if err != nil {
+			fmt.Println("model rejected:", err)
+			return 2
+		}
+		defer env.Close()
+		if err := writeParam(env, c.World.Tuples, p); err != nil {
+			fmt.Println("write:", err)
+			return 2
+		}
+		propsWorld(r, env, c.World, nodesFor(o), p)
+		return r.Finish()
 	}
 	env, err := e2.NewEnv(c.World.M, serverOpts()...)
 	if err != nil {
